@@ -196,6 +196,18 @@ Definition blocks_contiguous (meta g : graph) : bool :=
   forallb (fun p => Z.eqb (fst p) (snd p)) (combine flat (map Z.of_nat (seq 0 (length g))))
   && Nat.eqb (length flat) (length g).
 
+(** the same read off the RETURNED coarse graphs: listing the coarse nodes by ascending key, the (sorted) node sets of
+    their graphs concatenate to 0..n-1 - the block of a coarse node sits where its KEY puts it *)
+Definition blocks_by_coarse (g : graph) (fgs : fgraphs) : bool :=
+  negb (all_singletons g) ||
+  let ks := map snd (isort (map (fun kg => ([fst kg], fst kg)) fgs)) in
+  let blocks := map (fun k => match fg_get k fgs with
+                              | Some h => map snd (isort (map (fun x => ([x], x)) (node_keys h)))
+                              | None => [] end) ks in
+  let flat := concat blocks in
+  Nat.eqb (length flat) (length g)
+  && forallb (fun p => Z.eqb (fst p) (snd p)) (combine flat (map Z.of_nat (seq 0 (length g)))).
+
 Definition atomname_of (a : attrs) : option pystr :=
   match aget (S "atomname") a with Some (VStr s) => Some s | _ => None end.
 Definition element_of (a : attrs) : option pystr :=
